@@ -978,6 +978,10 @@ fn enumerate_faults(sc: &Value, census: &Sub, tier: &str) -> Vec<Value> {
                     let first_of_kind = !evs[..idx].iter().any(|p| p.sys.nr == ev.sys.nr);
                     if (first_of_kind || tier != "quick") && !sc["plan"]["no_persist"].as_bool().unwrap_or(false) {
                         out.push(f(Action::ErrnoPersist(*e)));
+                        if matches!(ev.sys.nr, SYS_RENAME | SYS_RENAMEAT | SYS_RENAMEAT2) {
+                            // the source stays gone: whoever retries must give up
+                            out.push(f(Action::ErrnoPersist(libc::ENOENT)));
+                        }
                     }
                 }
                 if matches!(ev.sys.nr, SYS_READ | SYS_PREAD64) && ev.ret >= 2 {
@@ -991,6 +995,15 @@ fn enumerate_faults(sc: &Value, census: &Sub, tier: &str) -> Vec<Value> {
                         // a pure short write (the retry of the remainder succeeds) is legal POSIX behaviour: the call must still be truthful
                         out.push(f(Action::Short(len / 2)));
                         out.push(f(Action::ShortThenErr(len / 2, libc::ENOSPC)));
+                        if ev.sys.path.as_deref().map(|p| p.contains("/index-v5/")).unwrap_or(false) {
+                            // an index record torn at further offsets (inside its metadata, inside a multi-byte character)
+                            let mut r = Rng::new(mix(len, at as u64));
+                            for k in [len / 4, len * 3 / 4, len * 5 / 8, 1 + r.below(len - 1), 1 + r.below(len - 1)] {
+                                if k >= 1 && k < len && k != len / 2 {
+                                    out.push(f(Action::ShortThenErr(k, libc::ENOSPC)));
+                                }
+                            }
+                        }
                         if tier != "quick" {
                             out.push(f(Action::ShortThenErr(1, libc::EIO)));
                         }
